@@ -645,7 +645,7 @@ func (c *Ctx) chanInvAssert(s *State, in ssa.Instruction, chv ssa.Value, v Value
 		c.unsupported("channel invariant " + pd.Name + ": " + e)
 	}
 	name := fmt.Sprintf("%s/chaninv#%d:%s", fnKey(in.Parent()), c.ordinal("chan", in), pd.Name)
-	c.oblige(s, "chaninv", name, g, posOf(c.eng.prog, in), "channel message invariant "+pd.Src, nil)
+	c.oblige(s, "chaninv", name, g, posOf(c.eng.prog, in), "channel message invariant "+pd.Src, c.props)
 }
 
 func (c *Ctx) chanInvAssume(s *State, in ssa.Instruction, chv ssa.Value, v Value, okc Term) {
@@ -1046,6 +1046,12 @@ func (c *Ctx) checkGuard(s *State, in ssa.Instruction, gf guardedField, base Ter
 }
 
 func (c *Ctx) checkGuardNamed(s *State, in ssa.Instruction, gf guardedField, base Term, write, read bool, what string) {
+	if fc := c.eng.contracts.funcs[qualFnName(in.Parent())]; fc != nil {
+		if why, ok := fc.TrustedAccess[gf.key]; ok {
+			c.note("access to " + gf.key + " in " + fc.Key + " exempt from the lock discipline: " + why)
+			return
+		}
+	}
 	pos := posOf(c.eng.prog, in)
 	fk := fnKey(in.Parent())
 	ord := c.ordinal("guard", in)
